@@ -537,6 +537,13 @@ def r14(ctx):
 
 
 def run(ctx):
+    import rules.common as _cm
+    ctx.rule('C05.R15', 'an accessor hands out what the member holds: every member function of the eBUS library classes (data types, fields, messages, symbols) that only returns an integer data member has a return type at least as wide as the member and no narrowing cast on the way - getReplacement() truncated to a byte makes a value list on a 16 bit type print its replacement pattern as a number and an ordinary value as null', minimum=20)
+    ctx.rule('C05.R16', 'a byte is scaled in a domain that holds the result: in the data type and field sources every multiplication or shift of a value read from an 8 bit unsigned variable that the language evaluates in signed int has a constant factor that keeps 255 * factor below 2^31 (or the arithmetic is unsigned / 64 bit); the fourth byte of a little-endian value scaled as byte * (1 << 8*i) overflows for bytes >= 0x80 and the accumulated value is sign-extended garbage', minimum=3)
+    _cm.byte_scale_rule(ctx, 'C05.R16', lambda f: f.relfile in ('src/lib/ebus/datatype.cpp', 'src/lib/ebus/data.cpp', 'src/lib/ebus/datatype.h', 'src/lib/ebus/data.h'), 3)
+    import rules.C06 as _c06
+    ctx.borrow(_c06.r17, {'C06.R17': 'C05.R17'}, 'a pattern outside the value range of the type (minutes beyond 31.12.2099) is rejected, not shown as a date')
+    _cm.getter_width_rule(ctx, 'C05.R15', lambda f: f.relfile.startswith('src/lib/ebus/'), 20)
     r14(ctx)
     r13(ctx)
     r12(ctx)
